@@ -17,7 +17,7 @@ from .values import Sym, SymBool, SymInt, SymReal, SymStr
 from .rope import Rope, RopeIO, Field, Slice, Lit, Base, int_of_rope, _t, _const, CONCRETIZERS
 
 # uninterpreted helpers ------------------------------------------------------
-I2S = z3.Function("i2s", z3.IntSort(), z3.StringSort())         # str(int)
+DIGITS = z3.Function("digits", z3.IntSort(), z3.IntSort())       # len(str(int)), sign included
 ULEN = z3.Function("utf8len", z3.StringSort(), z3.IntSort())    # len(text.encode('utf8'))
 LOWER = z3.Function("lower", z3.StringSort(), z3.StringSort())
 UPPER = z3.Function("upper", z3.StringSort(), z3.StringSort())
@@ -90,7 +90,7 @@ def str_lower(s):
     e = V.term(s)
     r = LOWER(e)
     c = ctx()
-    c.pc.append(z3.And(LOWER(r) == r, z3.Length(r) >= 0))
+    c.add_fact(z3.And(LOWER(r) == r, z3.Length(r) >= 0))
     return SymStr(r)
 
 
@@ -98,7 +98,7 @@ def str_upper(s):
     e = V.term(s)
     r = UPPER(e)
     c = ctx()
-    c.pc.append(UPPER(r) == r)
+    c.add_fact(UPPER(r) == r)
     return SymStr(r)
 
 
@@ -118,9 +118,7 @@ def str_encode(s, encoding="utf-8", errors="strict"):
 def utf8_blob(e, errors="strict"):
     c = ctx()
     n = ULEN(e)
-    c.pc.append(z3.And(n >= z3.Length(e), n <= 4 * z3.Length(e)))
-    if z3.is_app(e) and e.decl().name() == "i2s":
-        c.pc.append(z3.And(n == z3.Length(e), n >= 1))
+    c.add_fact(z3.And(n >= z3.Length(e), n <= 4 * z3.Length(e)))
     r = Rope.blob("utf8", n, origin=("utf8", e, errors), assume_nonneg=False)
     return r
 
@@ -131,6 +129,14 @@ def bytes_decode(r, encoding="utf-8", errors="strict"):
     r = Rope.of(r)
     c = ctx()
     base = r.single_whole_blob()
+    if base is not None and base.origin and base.origin[0] == "text":
+        t, enc_err = base.origin[1], base.origin[2]
+        if errors not in ("strict", "surrogatepass"):
+            raise Unsupported("error handler %r" % (errors,))
+        if enc_err == "surrogatepass" and errors == "strict":
+            if c.branch(t.surr, "decode-surrogate"):
+                raise UnicodeDecodeError("utf-8", b"\xed\xa0\x80", 0, 1, "invalid continuation byte")
+        return t
     if base is not None and base.origin and base.origin[0] == "utf8":
         enc_err = base.origin[2]
         if enc_err == errors or enc_err == "strict":
@@ -144,10 +150,10 @@ def bytes_decode(r, encoding="utf-8", errors="strict"):
     # arbitrary bytes: either not valid utf-8, or some text
     if c.choose(2, "decode-arbitrary") == 0:
         raise UnicodeDecodeError("utf-8", b"\xff", 0, 1, "invalid start byte")
-    s = c.fresh_str("decoded")
-    c.pc.append(z3.And(z3.Length(s) <= r.length_term(), 4 * z3.Length(s) >= r.length_term()))
     c.log.append(("decode", r))
-    return SymStr(s)
+    t = SymText.fresh(c, "decoded")
+    c.assume(t.ulen == r.length_term())
+    return t
 
 
 def _pyidx(k, ln):
@@ -242,20 +248,135 @@ def m_len(interp, obj):
     return len(obj)
 
 
+class SymText(Sym):
+    """An opaque `str` value: no solver string is built (z3's sequence solver
+    does not terminate on texts hundreds of characters long, and C04/C05/C19
+    never look inside a text).  Known about it: its length in characters, the
+    length of its utf-8 image, whether it contains a lone surrogate, and its
+    origin (e.g. the decimal rendering of an int)."""
+    __slots__ = ("name", "clen", "ulen", "surr", "origin")
+    pytype = str
+
+    def __init__(self, name, clen, ulen, surr, origin=None):
+        self.name = name
+        self.clen = clen
+        self.ulen = ulen
+        self.surr = surr
+        self.origin = origin
+
+    @staticmethod
+    def fresh(c, hint="text", max_chars=None):
+        name = c._name(hint)
+        clen = z3.Int(name + ".chars")
+        ulen = z3.Int(name + ".utf8len")
+        surr = z3.Bool(name + ".has_surrogate")
+        c.assume(z3.And(clen >= 0, ulen >= clen, ulen <= 4 * clen, z3.Implies(surr, z3.And(clen >= 1, ulen >= 3)),
+                        clen <= (max_chars if max_chars is not None else (1 << 30) - 1)))
+        return SymText(name, clen, ulen, surr)
+
+    @staticmethod
+    def digits(n):
+        nd = DIGITS(n)
+        return SymText("digits", nd, nd, z3.BoolVal(False), ("digits", n))
+
+    def truth_term(self):
+        return self.clen > 0
+
+    def sym_len(self):
+        return V.wrap(self.clen)
+
+    @staticmethod
+    def sym_getattr(obj, interp, name):
+        if name == "encode":
+            return BoundModel(text_encode, obj, name)
+        if hasattr(str, name):
+            raise Unsupported("str.%s on an opaque text" % name)
+        raise AttributeError("'str' object has no attribute %r" % name)
+
+    def sym_compare(self, op, other, reflected):
+        if op not in ("==", "!="):
+            raise Unsupported("ordering of opaque texts")
+        if other is self:
+            return op == "=="
+        if isinstance(other, SymText) and self.origin and other.origin and self.origin[0] == other.origin[0] == "digits":
+            r = V.wrap(self.origin[1] == other.origin[1])
+            return r if op == "==" else V.unaryop("not", r)
+        if V.pytype_of(other) is not str:
+            return op == "!="
+        if type(other) is str and other == "":
+            r = V.wrap(self.clen == 0)
+            return r if op == "==" else V.unaryop("not", r)
+        if isinstance(other, SymText) and not self.origin and not other.origin:
+            # two different opaque texts: equality is an uninterpreted symmetric predicate
+            n1, n2 = sorted([self.name, other.name])
+            e = z3.Bool("text_eq(%s,%s)" % (n1, n2))
+            ctx().assume(z3.And(z3.Implies(e, z3.And(self.clen == other.clen, self.ulen == other.ulen, self.surr == other.surr)),
+                                  z3.Implies(z3.And(self.clen == 0, other.clen == 0), e)))
+            r = V.wrap(e)
+            return r if op == "==" else V.unaryop("not", r)
+        raise Unsupported("equality of distinct opaque texts")
+
+    def concretize(self, model):
+        if self.origin and self.origin[0] == "digits":
+            return str(model.eval(self.origin[1], model_completion=True).as_long())
+        n = model.eval(self.clen, model_completion=True).as_long()
+        u = model.eval(self.ulen, model_completion=True).as_long()
+        surr = z3.is_true(model.eval(self.surr, model_completion=True))
+        if n > 1 << 22:
+            raise Unsupported("counterexample needs a %d-character text" % n)
+        out = []
+        if surr:
+            out.append("\ud800")
+            n -= 1
+            u -= 3
+        # n characters totalling u bytes, n <= u <= 4n
+        for i in range(n):
+            left = n - i - 1
+            w = max(1, min(4, u - left))
+            out.append({1: "a", 2: "\xe9", 3: "\u20ac", 4: "\U0001f600"}[w])
+            u -= w
+        return "".join(out)
+
+
+def text_encode(t, encoding="utf-8", errors="strict"):
+    if str(encoding).lower().replace("-", "").replace("_", "") != "utf8":
+        raise Unsupported("encoding %r" % (encoding,))
+    c = ctx()
+    if errors == "strict":
+        if c.branch(t.surr, "lone-surrogate"):
+            raise UnicodeEncodeError("utf-8", "\ud800", 0, 1, "surrogates not allowed")
+    elif errors != "surrogatepass":
+        raise Unsupported("error handler %r" % (errors,))
+    return Rope.blob("utf8", t.ulen, origin=("text", t, errors), assume_nonneg=False)
+
+
+_DIGIT_AXIOM_KS = (1, 2, 3, 4, 254, 255, 256, 257)
+
+
+def digits_axioms(n):
+    nd = DIGITS(n)
+    ks = set(_DIGIT_AXIOM_KS)
+    from . import INT_MAX_STR_DIGITS as lim
+    if lim:
+        ks.update((lim - 1, lim, lim + 1, lim + 2))
+    ax = [nd >= 1]
+    for k in sorted(ks):
+        # len(str(n)) <= k  <=>  -10^(k-1) < n < 10^k
+        ax.append((nd <= k) == z3.And(n > -(10 ** (k - 1)), n < 10 ** k))
+    return z3.And(*ax)
+
+
 def int_digits_check(n_term):
     """str(int) contract: raises ValueError when the decimal rendering exceeds
-    the interpreter's digit limit; otherwise an opaque digit string."""
+    the interpreter's digit limit; otherwise an opaque digit text."""
     c = ctx()
-    s = I2S(n_term)
-    lim = sys.get_int_max_str_digits() if hasattr(sys, "get_int_max_str_digits") else 0
-    c.pc.append(z3.Length(s) >= 1)
-    c.pc.append(z3.Implies(z3.And(n_term > -10, n_term < 10), z3.Length(s) <= 2))
+    c.add_fact(digits_axioms(n_term))
+    from . import INT_MAX_STR_DIGITS as lim
     if lim:
-        # digits beyond the limit are only possible for |n| >= 10**lim
-        if c.branch(z3.Length(s) > lim + 1, "int-max-str-digits"):
+        if c.branch(z3.Or(n_term >= 10 ** lim, n_term <= -(10 ** lim)), "int-max-str-digits"):
             c.log.append(("int_too_long", n_term))
             raise ValueError("Exceeds the limit (%d digits) for integer string conversion" % lim)
-    return s
+    return SymText.digits(n_term)
 
 
 def m_str(interp, *args, **kwargs):
@@ -272,7 +393,9 @@ def m_str(interp, *args, **kwargs):
     if isinstance(obj, SymStr):
         return obj
     if isinstance(obj, SymInt):
-        return SymStr(int_digits_check(obj.e))
+        return int_digits_check(obj.e)
+    if isinstance(obj, SymText):
+        return obj
     if isinstance(obj, SymBool):
         return V.wrap(z3.If(obj.e, z3.StringVal("True"), z3.StringVal("False")))
     if isinstance(obj, Sym) or interp.has_sym(obj):
@@ -308,6 +431,8 @@ def m_bytes(interp, *args, **kwargs):
         return b""
     obj = args[0]
     if V.pytype_of(obj) is str and (len(args) > 1 or kwargs):
+        if isinstance(obj, SymText):
+            return text_encode(obj, *args[1:], **kwargs)
         if isinstance(obj, SymStr):
             return str_encode(obj, *args[1:], **kwargs)
         return bytes(*args, **kwargs)
@@ -331,19 +456,21 @@ def m_int(interp, *args, **kwargs):
             return V.wrap(V.num_term(obj))
         if isinstance(obj, Rope):
             base = obj.single_whole_blob()
-            if base is not None and base.origin and base.origin[0] == "utf8":
-                t = base.origin[1]
-                if z3.is_app(t) and t.decl().name() == "i2s":
-                    # int(str(n).encode()) == n ; re-parsing is subject to the same digit limit
-                    return V.wrap(t.arg(0))
+            if base is not None and base.origin and base.origin[0] == "text" and base.origin[1].origin \
+                    and base.origin[1].origin[0] == "digits":
+                # int(str(n).encode()) == n ; re-parsing is subject to the same digit limit
+                return V.wrap(base.origin[1].origin[1])
             if c.choose(2, "int-of-bytes") == 0:
                 raise ValueError("invalid literal for int() with base 10")
             c.log.append(("int_of_bytes", obj))
             return SymInt(c.fresh_int("parsed"))
+        if isinstance(obj, SymText):
+            if obj.origin and obj.origin[0] == "digits":
+                return V.wrap(obj.origin[1])
+            if c.choose(2, "int-of-str") == 0:
+                raise ValueError("invalid literal for int() with base 10")
+            return SymInt(c.fresh_int("parsed"))
         if isinstance(obj, SymStr):
-            t = obj.e
-            if z3.is_app(t) and t.decl().name() == "i2s":
-                return V.wrap(t.arg(0))
             if c.choose(2, "int-of-str") == 0:
                 raise ValueError("invalid literal for int() with base 10")
             return SymInt(c.fresh_int("parsed"))
@@ -645,6 +772,49 @@ def m_sorted(interp, it, key=None, reverse=False):
     return res
 
 
+def m_dict_get(interp, d, key, default=None):
+    if isinstance(key, Sym) or interp.has_sym(key):
+        try:
+            return interp.dict_lookup(d, key)
+        except KeyError:
+            return default
+    return d.get(key, default)
+
+
+class SymRange(object):
+    """range() with a symbolic bound: iteration is unrolled under the
+    interpreter's loop bound (unwinding assertion)"""
+
+    def __init__(self, interp, start, stop):
+        self.interp = interp
+        self.start = start
+        self.stop = stop
+
+    def sym_iter(self):
+        i = self.start
+        n = 0
+        while self.interp.truth(V.compare("<", i, self.stop)):
+            n += 1
+            if n > self.interp.loop_bound:
+                self.interp.bound_hit("range() with a symbolic bound needs more than %d iterations" % self.interp.loop_bound)
+            yield i
+            i = i + 1
+
+    def sym_len(self):
+        d = V.binop("-", self.stop, self.start)
+        return m_max(self.interp, 0, d)
+
+
+def m_range(interp, *args):
+    if any(isinstance(a, Sym) for a in args):
+        if len(args) == 1:
+            return SymRange(interp, 0, args[0])
+        if len(args) == 2:
+            return SymRange(interp, args[0], args[1])
+        raise Unsupported("range() with a symbolic step")
+    return range(*args)
+
+
 def m_super(interp, *args):
     return super(*args)
 
@@ -756,7 +926,7 @@ def zlib_compress(interp, data, *a, **k):
         return zlib.compress(data, *a, **k)
     c = ctx()
     n = c.fresh_int("zlen")
-    c.pc.append(n >= 1)
+    c.add_fact(n >= 1)
     c.log.append(("zlib.compress", data))
     return Rope.blob("z", n, origin=("z", data), assume_nonneg=False)
 
@@ -772,7 +942,7 @@ def zlib_decompress(interp, data, *a, **k):
     if c.choose(2, "zlib-garbage") == 0:
         raise zlib.error("Error -3 while decompressing data")
     n = c.fresh_int("inflated")
-    c.pc.append(n >= 0)
+    c.add_fact(n >= 0)
     return Rope.blob("inflated", n, assume_nonneg=False).maybe_concrete()
 
 
@@ -793,7 +963,7 @@ def m_bytes_join(interp, sep, items):
 # installation
 # ----------------------------------------------------------------------------
 
-SYM_TOLERANT = [enumerate, zip, reversed, print, map, filter, id, next, range]
+SYM_TOLERANT = [enumerate, zip, reversed, print, map, filter, id, next]
 
 
 def install(interp):
@@ -831,6 +1001,8 @@ def install(interp):
     mm[(struct.Struct, "pack")] = struct_pack
     mm[(struct.Struct, "unpack")] = struct_unpack
     mm[(bytes, "join")] = m_bytes_join
+    mm[(dict, "get")] = m_dict_get
+    tm[range] = m_range
     m[zlib.compress] = zlib_compress
     m[zlib.decompress] = zlib_decompress
     for f in SYM_TOLERANT:
@@ -839,3 +1011,33 @@ def install(interp):
             tm[f] = w
         else:
             m[f] = w
+
+
+# ----------------------------------------------------------------------------
+# concretizers of blobs with an origin (used when building replay inputs)
+# ----------------------------------------------------------------------------
+
+def _conc_utf8(base, model):
+    s = V.z3str_to_py(model.eval(base.origin[1], model_completion=True))
+    return s.encode("utf-8", "surrogatepass")
+
+
+def _conc_text(base, model):
+    return base.origin[1].concretize(model).encode("utf-8", "surrogatepass")
+
+
+def _conc_fp(base, model):
+    v = fp_to_py(model.eval(base.origin[1], model_completion=True))
+    return struct.pack("!" + base.origin[2], v)
+
+
+def _conc_z(base, model):
+    inner = base.origin[1]
+    data = inner.concretize(model) if isinstance(inner, Rope) else inner
+    return zlib.compress(data, 1)
+
+
+CONCRETIZERS["utf8"] = _conc_utf8
+CONCRETIZERS["text"] = _conc_text
+CONCRETIZERS["fp"] = _conc_fp
+CONCRETIZERS["z"] = _conc_z
